@@ -32,6 +32,18 @@ def abs_records(tid, res):
     return out
 
 
+def nsp_records(tid, res):
+    """`nsp` records (refinement-on-trace of the no-spaces parser) for the probe events of one API call."""
+    out = []
+    for ev in res.get("probe", []):
+        if ev.get("ev") != "nospaces":
+            continue
+        out.append({"kind": "nsp", "tid": tid, "toks": ev.get("toks", []), "order": ev.get("order", "MDY"), "strict": bool(ev.get("strict")),
+                    "require": ev.get("require", []), "eligible": bool(ev.get("eligible")), "skip": bool(ev.get("skip")),
+                    "out": ev.get("out"), "period": ev.get("period", ""), "ds": ev.get("ds", "")})
+    return out
+
+
 def api_out(res):
     """Projected API outcome: 7-list, [] for None."""
     return res["out"]
@@ -55,8 +67,8 @@ def collect(ctx, tuples, cases, results, module, describe, finding=None):
         _, tid, kind, verdict, expected = t[:5]
         case, res = cases[tid], results[tid]
         if kind == "abs":
-            ctx.note_drift(module, {"case": describe(case), "model": expected,
-                                    "observed": [e.get("out") for e in res.get("probe", [])]})
+            ctx.note_drift(module if verdict != "nospaces" else "NoSpaces", {"case": describe(case), "model": expected,
+                                    "observed": [[e.get("ds"), e.get("out"), e.get("period")] for e in res.get("probe", [])][:6]})
             continue
         fid = finding(case, res, expected) if finding else None
         if fid:
